@@ -424,6 +424,12 @@ func evalConstructorDeclareStmt(vm *r.VM, node *syntax.FunctionDeclareStmt) erro
 	if module == nil || module.GetProgram() == nil {
 		return zerr.InvalidClassType(className.GetLiteral())
 	}
+	// ... and only the module that declares a type defines its constructor: imported
+	// names are read-only (an importer must not change how the exporting module itself
+	// creates its objects)
+	if module != vm.GetCurrentModule() {
+		return zerr.InvalidClassType(className.GetLiteral())
+	}
 
 	//// there are some different Factors from normal method function:
 	// 1. no outerScope (clousure scope)
